@@ -1742,6 +1742,16 @@ class ProtoGen(ProtoBase):
                 b = self.module_text(n2, "", f"IMPORTS Colour, Car FROM {n1} {oid};\nFleet ::= SEQUENCE OF Car\n"
                                      "Paint ::= SEQUENCE { main Colour, others SEQUENCE OF Colour, pick CHOICE { a Car, b Colour } }")
                 reqs.append("proto gen " + vlib.hexs(a.encode()) + "," + vlib.hexs(b.encode()))
+        # names that contain the name of their own / another type: enum values live in the scope of the package,
+        # the prefix the generator adds has to keep them apart
+        for ty, other in (("DoorState", "Door"), ("Mode", "Mo"), ("Level-Kind", "Level"), ("A", "A-B")):
+            lo = ty[0].lower() + ty[1:]
+            lo = "".join("-" + c.lower() if c.isupper() else c for c in lo)
+            b = (f"{ty} ::= ENUMERATED {{ unknown, open, closed, {lo}-unknown, {lo}-open }}\n"
+                 f"{other} ::= ENUMERATED {{ front, rear, {lo}-open, {lo}-closed, unknown }}\n"
+                 f"Use{ty.replace('-', '')} ::= SEQUENCE {{ a {ty}, b {other}, c ENUMERATED {{ first, b-{lo}, {lo} }} }}\n"
+                 f"Pick{ty.replace('-', '')} ::= CHOICE {{ {lo} {ty}, {lo}-open {other}, open BOOLEAN }}")
+            reqs.append("proto gen " + vlib.hexs(self.module_text("Names-In-Names", "", b).encode()))
         # random structures with harmless identifiers (generator of C09)
         from checks import c09
         c09.CLEAN[0] = True
